@@ -56,8 +56,14 @@ func runC14(c *fw.Ctx, idx int) fw.Result {
 	appendSNP := r.Chance(0.5)
 	threads := pickThreads(r)
 	outGB, errGB := ac.runVariants(-1, -1, false, 0, appendSNP, threads)
+	if idx%20 == 8 && errGB == nil {
+		ac.binVariants(c, &res, idx, -1, -1, false, 0, appendSNP, threads, outGB)
+	}
 	ac.format, ac.annoTxt = "gff", gffTxt
 	outGFF, errGFF := ac.runVariants(-1, -1, false, 0, appendSNP, threads)
+	if idx%20 == 8 && errGFF == nil {
+		ac.binVariants(c, &res, idx+1, -1, -1, false, 0, appendSNP, threads, outGFF)
+	}
 	res.Evals += 2
 	files := ac.files()
 	files["annotation.gb"] = gbTxt
